@@ -23,3 +23,42 @@ def attr(path):
                                                [b.__qualname__ for b in obj.__mro__[1:-1]])
         return repr(obj)
     return '<unresolvable>'
+
+
+def field_roundtrip(value, legacy=False):
+    """encode.encode_table_value then decode.embedded_value on the real code."""
+    from pamqp import encode, decode
+    old = encode.DEPRECATED_RABBITMQ_SUPPORT
+    encode.DEPRECATED_RABBITMQ_SUPPORT = legacy
+    try:
+        data = encode.encode_table_value(value)
+        consumed, back = decode.embedded_value(data + b'\xce\x00rest')
+        return {'encoded': data, 'consumed': consumed, 'decoded': back}
+    finally:
+        encode.DEPRECATED_RABBITMQ_SUPPORT = old
+
+
+def table_encodings(table):
+    """encode.field_table of a dict and of the same contents inserted in reverse / rotated order; input left unchanged?"""
+    import copy
+    from pamqp import encode
+    before = copy.deepcopy(table)
+    first = encode.field_table(table)
+    unchanged = (table == before) and list(table) == list(before)
+    rev = dict(reversed(list(table.items())))
+    items = list(table.items())
+    rot = dict(items[1:] + items[:1])
+    return {'encoded': first, 'again': encode.field_table(table), 'reversed': encode.field_table(rev),
+            'rotated': encode.field_table(rot), 'input_unchanged': unchanged}
+
+
+def decode_value(data):
+    from pamqp import decode
+    consumed, value = decode.embedded_value(data)
+    return {'consumed': consumed, 'decoded': value}
+
+
+def decode_table(data):
+    from pamqp import decode
+    consumed, value = decode.field_table(data)
+    return {'consumed': consumed, 'decoded': value}
